@@ -10,7 +10,7 @@ CHECK = dict(
     floors=dict(quick=dict(evaluations=20, events=20000, distinct=8, cov={'gap_checks_with_waiters': 2000, 'wait_timed_out': 200, 'notify_all_woken': 200, 'timed_waiter_notified': 20}),
                 thorough=dict(evaluations=150, events=400000, distinct=40, cov={'gap_checks_with_waiters': 40000, 'wait_timed_out': 4000, 'notify_all_woken': 4000, 'timed_waiter_notified': 400, 'C_DEFER_TO_NEW_THREAD': 0})),
     assumptions=['x86-TSO hardware; weaker orderings only through TSan', 'nobody interrupts the waiters in this harness, so ETIMEDOUT is the only legal error'],
-    technique='runtime monitoring: ledger written only under the waiters\' own lock decides atomic release-and-wait exactly (no timing), notification/wake-up accounting at quiescence, lock-held and deadline oracles, stuck detector, under ASan+UBSan / TSan / plain with stall points and CPU shapes',
+    technique='runtime monitoring: ledger written only under the waiters\' own lock decides atomic release-and-wait exactly (no timing), notification/wake-up accounting at quiescence, lock-held and deadline oracles, stuck detector, under ASan+UBSan / TSan / plain with stall points and CPU shapes; plus an ASan probe in which waiters return as soon as they are woken while two vCPUs notify without a common lock (named by the harness in __asan_on_error)',
     level_text='Held on the seeded executions actually run: every notifier that held the lock while untimed waiters were registered found them in the queue '
                '(notify_one non-null, notify_all >= registered), every wait() returned with the lock held, 0 only when a notification accounts for it and -1/ETIMEDOUT '
                'only after its deadline and never after notify_one() had reported that thread as woken, and notifications and wake-ups balance at quiescence. '
